@@ -279,7 +279,8 @@ impl HyraxPC {
         let dim: u64 = 1 << n / 2;
         proof { vstd::arithmetic::power2::lemma2_to64_rest(); vstd::arithmetic::power2::lemma_pow2_strictly_increases((n / 2) as nat, 63); assert(dim as nat == vstd::arithmetic::power2::pow2((n / 2) as nat)); assert(dim < 0x8000_0000_0000_0000); }
 //@rw 1 /G::Group::normalize_batch/ => G1::normalize_batch
-//@rw 1 /let h: G = points\.pop\(\)\.unwrap\(\);/ => let h: G1Affine = points.pop().unwrap_abort();
+//@rw * /let h: G =/ => let h: G1Affine =
+//@rw * /points\.pop\(\)\.unwrap\(\)/ => points.pop().unwrap_abort()
 //@end
 
 //@fn id=hyrax.open file=poly-commit/src/hyrax/mod.rs scope="impl<G, P> PolynomialCommitment<G::ScalarField, P> for HyraxPC<G, P>" name=open props=C11,C01,C07,C19,C17
